@@ -88,6 +88,20 @@ static int s_sc_str(unsigned char *o) { return crypto_pwhash_scryptsalsa208sha25
 static int s_sc_vfy(unsigned char *o) { (void) o; return crypto_pwhash_scryptsalsa208sha256_str_verify(STR_SC, PW, PWLEN); }
 static int s_sc_vfyw(unsigned char *o) { (void) o; return crypto_pwhash_scryptsalsa208sha256_str_verify(STR_SC, "wrong horse..", PWLEN); }
 static int s_sc_nr(unsigned char *o) { (void) o; return crypto_pwhash_scryptsalsa208sha256_str_needs_rehash(STR_SC, 32768, 16777216); }
+/* the same verifications with a caller-installed random source that answers with the stored hash string itself (the worst answer for code that
+ * pre-fills its comparison buffer with random bytes "so that a failure cannot match") */
+static const char *adv_name(void) { return "verif-adversarial"; }
+static uint32_t adv_random(void) { return 0; }
+static const char *adv_src = STR_SC;
+static void adv_buf(void * const b, const size_t n) { size_t i, l = strlen(adv_src) + 1; for (i = 0; i < n; i++) ((unsigned char *) b)[i] = (unsigned char) adv_src[i % l]; }
+static struct randombytes_implementation adv_impl = { adv_name, adv_random, NULL, NULL, adv_buf, NULL };
+static int with_adv(const char *src, int (*f)(void)) { int r; adv_src = src; randombytes_set_implementation(&adv_impl); r = f(); randombytes_set_implementation(&randombytes_sysrandom_implementation); return r; }
+static int f_sc_vfyw(void) { return crypto_pwhash_scryptsalsa208sha256_str_verify(STR_SC, "wrong horse..", PWLEN); }
+static int f_id_vfyw(void) { return crypto_pwhash_str_verify(STR_ID, "wrong horse..", PWLEN); }
+static int f_i_vfyw(void) { return crypto_pwhash_str_verify(STR_I, "wrong horse..", PWLEN); }
+static int s_sc_vfyw_adv(unsigned char *o) { (void) o; return with_adv(STR_SC, f_sc_vfyw); }
+static int s_id_vfyw_adv(unsigned char *o) { (void) o; return with_adv(STR_ID, f_id_vfyw); }
+static int s_i_vfyw_adv(unsigned char *o) { (void) o; return with_adv(STR_I, f_i_vfyw); }
 static void *held;
 static int s_malloc(unsigned char *o) { (void) o; held = sodium_malloc(100); return held ? 0 : -1; }
 static int s_allocarray(unsigned char *o) { (void) o; held = sodium_allocarray(33, 129); return held ? 0 : -1; }
@@ -105,6 +119,9 @@ static const scen SC[] = {
     { "crypto_pwhash_scryptsalsa208sha256", 0, s_sc }, { "crypto_pwhash_scryptsalsa208sha256(2x)", 0, s_sc2 }, { "crypto_pwhash_scryptsalsa208sha256_ll", 0, s_sc_ll },
     { "crypto_pwhash_scryptsalsa208sha256_str", 1, s_sc_str }, { "crypto_pwhash_scryptsalsa208sha256_str_verify(correct)", 2, s_sc_vfy },
     { "crypto_pwhash_scryptsalsa208sha256_str_verify(wrong)", 3, s_sc_vfyw }, { "crypto_pwhash_scryptsalsa208sha256_str_needs_rehash", 4, s_sc_nr },
+    { "crypto_pwhash_scryptsalsa208sha256_str_verify(wrong, random source answers with the stored string)", 3, s_sc_vfyw_adv },
+    { "crypto_pwhash_str_verify(argon2id, wrong, random source answers with the stored string)", 3, s_id_vfyw_adv },
+    { "crypto_pwhash_str_verify(argon2i, wrong, random source answers with the stored string)", 3, s_i_vfyw_adv },
     { "sodium_malloc", 5, s_malloc }, { "sodium_allocarray", 5, s_allocarray } };
 #define NSC ((int) (sizeof SC / sizeof SC[0]))
 
